@@ -264,4 +264,253 @@ Section Tie.
   Lemma PReverse_next_src f input values :
     step (S f) (PReverse input values) = src_PReverse_next Val.binop value anext f input values.
   Proof. reflexivity. Qed.
+
+  (* `while rv is None: rv = Pattern.value(self.input)`: the clause of Step.v re-enters [step] for every further
+     iteration, so iteration k runs the child at fuel f - k; the translated loop does the same when its budget is S f *)
+  Lemma PCollapse_loop_src fuel lfuel n : forall input rv,
+    src_PCollapse_next_loop1 Val.binop value anext fuel lfuel n input rv =
+    if is_none rv then step n (PCollapse input) else (Yield rv, PCollapse input).
+  Proof.
+    induction n as [|n IH]; intros input rv; destruct rv; try reflexivity.
+    cbn [src_PCollapse_next_loop1 is_none]. open_ src_PCollapse_next.
+    destruct (Step.value binop LMAX n input) as [o input']. destruct o as [v| | | |]; try reflexivity.
+    rewrite IH. destruct v; reflexivity.
+  Qed.
+  Lemma PCollapse_next_src f input : step (S f) (PCollapse input) = src_PCollapse_next Val.binop value anext f (S f) input.
+  Proof. unfold src_PCollapse_next. rewrite PCollapse_loop_src. reflexivity. Qed.
+  Lemma PCollapse_reset_src f input : reset (S f) (PCollapse input) = src_PCollapse_reset (reset f) value f input.
+  Proof. reflexivity. Qed.
+  Lemma PCollapse_init_src f input : construct f CCollapse [input] = src_PCollapse_init (reset f) value f input.
+  Proof. reflexivity. Qed.
+
+  (* `rv = sys.maxsize; while rv == self.value or rv == sys.maxsize: rv = Pattern.value(self.input)` *)
+  Lemma PNoRepeats_loop_src fuel lfuel n : forall input v rv,
+    src_PNoRepeats_next_loop1 Val.binop value anext fuel lfuel n input v rv =
+    if py_eq rv v || py_eq rv (VInt MAXSIZE) then step n (PNoRepeats input v) else (Yield rv, PNoRepeats input rv).
+  Proof.
+    induction n as [|n IH]; intros input v rv.
+    - cbn [src_PNoRepeats_next_loop1]. destruct (py_eq rv v || py_eq rv (VInt MAXSIZE)); reflexivity.
+    - cbn [src_PNoRepeats_next_loop1]. destruct (py_eq rv v || py_eq rv (VInt MAXSIZE)); [|reflexivity].
+      open_ src_PNoRepeats_next.
+      destruct (Step.value binop LMAX n input) as [o input']. destruct o as [rv'| | | |]; try reflexivity.
+      rewrite IH. reflexivity.
+  Qed.
+  Lemma PNoRepeats_next_src f input v :
+    step (S f) (PNoRepeats input v) = src_PNoRepeats_next Val.binop value anext f (S f) input v.
+  Proof.
+    unfold src_PNoRepeats_next. rewrite PNoRepeats_loop_src.
+    replace (py_eq (VInt MAXSIZE) (VInt MAXSIZE)) with true by (vm_compute; reflexivity).
+    rewrite orb_true_r. reflexivity.
+  Qed.
+  Lemma PNoRepeats_reset_src f input v : reset (S f) (PNoRepeats input v) = src_PNoRepeats_reset (reset f) value f input v.
+  Proof. reflexivity. Qed.
+  Lemma PNoRepeats_init_src f input : construct f CNoRepeats [input] = src_PNoRepeats_init (reset f) value f input.
+  Proof. reflexivity. Qed.
+
+  (** * scalar.py *)
+  Lemma PChanged_next_src f source current :
+    step (S f) (PChanged source current) = src_PChanged_next Val.binop value anext f source current.
+  Proof. open_ src_PChanged_next. tie. Qed.
+  Lemma PChanged_reset_src f source current :
+    reset (S f) (PChanged source current) = src_PChanged_reset (reset f) value f source current.
+  Proof. reflexivity. Qed.
+  (* self.current = Pattern.value(self.source) *)
+  Lemma PChanged_init_src f source : construct f CChanged [source] = src_PChanged_init (reset f) value f source.
+  Proof. reflexivity. Qed.
+
+  Lemma PDiff_next_src f source current :
+    step (S f) (PDiff source current) = src_PDiff_next Val.binop value anext f source current.
+  Proof. open_ src_PDiff_next. tie. Qed.
+  Lemma PDiff_reset_src f source current :
+    reset (S f) (PDiff source current) = src_PDiff_reset (reset f) value f source current.
+  Proof. reflexivity. Qed.
+  Lemma PDiff_init_src f source : construct f CDiff [source] = src_PDiff_init (reset f) value f source.
+  Proof. reflexivity. Qed.
+
+  Lemma PSkipIf_next_src f pattern skip :
+    step (S f) (PSkipIf pattern skip) = src_PSkipIf_next Val.binop value anext f pattern skip.
+  Proof. open_ src_PSkipIf_next. tie. Qed.
+  Lemma PSkipIf_reset_src f pattern skip :
+    reset (S f) (PSkipIf pattern skip) = src_PSkipIf_reset (reset f) value f pattern skip.
+  Proof. reflexivity. Qed.
+  Lemma PSkipIf_init_src f pattern skip : construct f CSkipIf [pattern; skip] = src_PSkipIf_init (reset f) value f pattern skip.
+  Proof. reflexivity. Qed.
+
+  (* `while value < self.min: value += self.max - self.min` / `while value >= self.max: value -= self.max - self.min`:
+     Step.v's helpers wrap_up / wrap_down, each with the budget f *)
+  Lemma PWrap_loop2_src fuel lfuel n : forall pattern mn mx v,
+    src_PWrap_next_loop2 Val.binop value anext fuel lfuel n pattern mn mx v = (wrap_down n v mn mx, PWrap pattern mn mx).
+  Proof.
+    induction n as [|n IH]; intros pattern mn mx v; cbn [src_PWrap_next_loop2 wrap_down]; tie; rewrite ?IH; tie.
+  Qed.
+  Lemma PWrap_loop1_src fuel lfuel n : forall pattern mn mx v,
+    src_PWrap_next_loop1 Val.binop value anext fuel lfuel n pattern mn mx v =
+    (obind (wrap_up n v mn mx) (fun v1 => wrap_down lfuel v1 mn mx), PWrap pattern mn mx).
+  Proof.
+    induction n as [|n IH]; intros pattern mn mx v; cbn [src_PWrap_next_loop1 wrap_up]; rewrite ?PWrap_loop2_src; tie;
+      rewrite ?IH; tie; congruence.
+  Qed.
+  Lemma PWrap_next_src f pattern mn mx :
+    step (S f) (PWrap pattern mn mx) = src_PWrap_next Val.binop value anext f f pattern mn mx.
+  Proof.
+    open_ src_PWrap_next. destruct (Step.anext binop LMAX f pattern) as [o pattern']. destruct o; try reflexivity.
+    rewrite PWrap_loop1_src. reflexivity.
+  Qed.
+  Lemma PWrap_reset_src f pattern mn mx : reset (S f) (PWrap pattern mn mx) = src_PWrap_reset (reset f) value f pattern mn mx.
+  Proof. reflexivity. Qed.
+  Lemma PWrap_init_src f pattern mn mx :
+    construct f CWrap [pattern; AV mn; AV mx] = src_PWrap_init (reset f) value f pattern mn mx.
+  Proof. reflexivity. Qed.
+  (** * One call of __next__ / reset() as the source text defines it *)
+
+  (* the translated body of the object's class applied to its fields; the children are run by the engine.  Classes the
+     translator rejects (see the header of Generated/TablesStep.v) keep the hand-written clause. *)
+  Definition src_step (fuel : nat) (p : pat) : outcome val * pat :=
+    match fuel with
+    | O => (OutOfFuel, p)
+    | S f =>
+        match p with
+        | PConstant c => src_PConstant_next Val.binop value anext f c
+        | PRef a => src_PRef_next Val.binop value anext f a
+        | PAbs a => src_PAbs_next Val.binop value anext f a
+        | PInt a => src_PInt_next Val.binop value anext f a
+        | PBinOp o a b =>
+            match o with
+            | OAdd => src_PAdd_next
+            | OSub => src_PSub_next
+            | OMul => src_PMul_next
+            | ODiv => src_PDiv_next
+            | OFloorDiv => src_PFloorDiv_next
+            | OMod => src_PMod_next
+            | OPow => src_PPow_next
+            | OLShift => src_PLShift_next
+            | ORShift => src_PRShift_next
+            | OEq => src_PEqual_next
+            | ONe => src_PNotEqual_next
+            | OGt => src_PGreaterThan_next
+            | OGe => src_PGreaterThanOrEqual_next
+            | OLt => src_PLessThan_next
+            | OLe => src_PLessThanOrEqual_next
+            end binop value anext f a b
+        | PAnd a b => src_PAnd_next Val.binop value anext f a b
+        | PSeries start v stp length count => src_PSeries_next Val.binop value anext f start v stp length count
+        | PRange start e stp v => src_PRange_next Val.binop value anext f start e stp v
+        | PGeom start v m length count => src_PGeom_next Val.binop value anext f start v m length count
+        | PImpulse period pos => src_PImpulse_next Val.binop value anext f period pos
+        | PCounter trigger v count => src_PCounter_next Val.binop value anext f trigger v count
+        | PStutter pattern count cc pos v => src_PStutter_next Val.binop value anext f pattern count cc pos v
+        | PPad pattern length count => src_PPad_next Val.binop value anext f pattern length count
+        | PPadToMultiple pattern multiple minimum_pad count padcount =>
+            src_PPadToMultiple_next Val.binop value anext f pattern multiple minimum_pad count padcount
+        | PLoop pattern count pos loop_index read_all values =>
+            src_PLoop_next Val.binop value anext f pattern count pos loop_index read_all values
+        | PReverse input values => src_PReverse_next Val.binop value anext f input values
+        | PCollapse input => src_PCollapse_next Val.binop value anext f (S f) input
+        | PNoRepeats input v => src_PNoRepeats_next Val.binop value anext f (S f) input v
+        | PChanged source current => src_PChanged_next Val.binop value anext f source current
+        | PDiff source current => src_PDiff_next Val.binop value anext f source current
+        | PSkipIf pattern skip => src_PSkipIf_next Val.binop value anext f pattern skip
+        | PWrap pattern mn mx => src_PWrap_next Val.binop value anext f f pattern mn mx
+        | _ => step fuel p
+        end
+    end.
+
+  Ltac head_of t := lazymatch t with ?g _ => head_of g | _ => t end.
+  Theorem src_step_is fuel p : src_step fuel p = step fuel p.
+  Proof.
+    destruct fuel as [|f]; [reflexivity|].
+    destruct p; try match goal with o : op |- _ => destruct o end; cbn [src_step]; symmetry;
+      lazymatch goal with
+      | |- _ = ?R =>
+          let h := head_of R in
+          lazymatch h with
+      | src_PRef_next => apply PRef_next_src
+      | src_PAbs_next => apply PAbs_next_src
+      | src_PInt_next => apply PInt_next_src
+      | src_PAnd_next => apply PAnd_next_src
+      | src_PRange_next => apply PRange_next_src
+      | src_PGeom_next => apply PGeom_next_src
+      | src_PImpulse_next => apply PImpulse_next_src
+      | src_PCounter_next => apply PCounter_next_src
+      | src_PStutter_next => apply PStutter_next_src
+      | src_PPad_next => apply PPad_next_src
+      | src_PPadToMultiple_next => apply PPadToMultiple_next_src
+      | src_PLoop_next => apply PLoop_next_src
+      | src_PCollapse_next => apply PCollapse_next_src
+      | src_PNoRepeats_next => apply PNoRepeats_next_src
+      | src_PChanged_next => apply PChanged_next_src
+      | src_PDiff_next => apply PDiff_next_src
+      | src_PSkipIf_next => apply PSkipIf_next_src
+      | src_PWrap_next => apply PWrap_next_src
+      | src_PAdd_next => apply PAdd_next_src
+      | src_PSub_next => apply PSub_next_src
+      | src_PMul_next => apply PMul_next_src
+      | src_PDiv_next => apply PDiv_next_src
+      | src_PFloorDiv_next => apply PFloorDiv_next_src
+      | src_PMod_next => apply PMod_next_src
+      | src_PPow_next => apply PPow_next_src
+      | src_PLShift_next => apply PLShift_next_src
+      | src_PRShift_next => apply PRShift_next_src
+      | src_PEqual_next => apply PEqual_next_src
+      | src_PNotEqual_next => apply PNotEqual_next_src
+      | src_PGreaterThan_next => apply PGreaterThan_next_src
+      | src_PGreaterThanOrEqual_next => apply PGreaterThanOrEqual_next_src
+      | src_PLessThan_next => apply PLessThan_next_src
+      | src_PLessThanOrEqual_next => apply PLessThanOrEqual_next_src
+          | _ => reflexivity
+          end
+      end.
+  Qed.
+
+  Definition src_reset (fuel : nat) (p : pat) : outcome pat :=
+    match fuel with
+    | O => OutOfFuel
+    | S f =>
+        match p with
+        | PConstant c => src_PConstant_reset (reset f) value f c
+        | PRef a => src_PRef_reset (reset f) value f a
+        | PAbs a => src_PAbs_reset (reset f) value f a
+        | PInt a => src_PInt_reset (reset f) value f a
+        | PBinOp o a b =>
+            match o with
+            | OAdd => src_PAdd_reset
+            | OSub => src_PSub_reset
+            | OMul => src_PMul_reset
+            | ODiv => src_PDiv_reset
+            | OFloorDiv => src_PFloorDiv_reset
+            | OMod => src_PMod_reset
+            | OPow => src_PPow_reset
+            | OLShift => src_PLShift_reset
+            | ORShift => src_PRShift_reset
+            | OEq => src_PEqual_reset
+            | ONe => src_PNotEqual_reset
+            | OGt => src_PGreaterThan_reset
+            | OGe => src_PGreaterThanOrEqual_reset
+            | OLt => src_PLessThan_reset
+            | OLe => src_PLessThanOrEqual_reset
+            end (reset f) value f a b
+        | PAnd a b => src_PAnd_reset (reset f) value f a b
+        | PSeries start v stp length count => src_PSeries_reset (reset f) value f start v stp length count
+        | PRange start e stp v => src_PRange_reset (reset f) value f start e stp v
+        | PGeom start v m length count => src_PGeom_reset (reset f) value f start v m length count
+        | PImpulse period pos => src_PImpulse_reset (reset f) value f period pos
+        | PCounter trigger v count => src_PCounter_reset (reset f) value f trigger v count
+        | PStutter pattern count cc pos v => src_PStutter_reset (reset f) value f pattern count cc pos v
+        | PPad pattern length count => src_PPad_reset (reset f) value f pattern length count
+        | PPadToMultiple pattern multiple minimum_pad count padcount =>
+            src_PPadToMultiple_reset (reset f) value f pattern multiple minimum_pad count padcount
+        | PLoop pattern count pos loop_index read_all values =>
+            src_PLoop_reset (reset f) value f pattern count pos loop_index read_all values
+        | PCollapse input => src_PCollapse_reset (reset f) value f input
+        | PNoRepeats input v => src_PNoRepeats_reset (reset f) value f input v
+        | PChanged source current => src_PChanged_reset (reset f) value f source current
+        | PDiff source current => src_PDiff_reset (reset f) value f source current
+        | PSkipIf pattern skip => src_PSkipIf_reset (reset f) value f pattern skip
+        | PWrap pattern mn mx => src_PWrap_reset (reset f) value f pattern mn mx
+        | _ => reset fuel p
+        end
+    end.
+
+  Theorem src_reset_is fuel p : src_reset fuel p = reset fuel p.
+  Proof. destruct fuel as [|f]; [reflexivity|]. destruct p; try reflexivity. destruct o; reflexivity. Qed.
 End Tie.
